@@ -387,8 +387,8 @@ fn c14_bufslice_3() {
 }
 
 //@ prop: C14
-//@ tier: thorough
-//@ what: arity-8 tuple: BufSlice iovecs/total_len and BufMutSlice set_init distribution
+//@ tier: quick
+//@ what: arity-8 tuple: BufSlice iovecs/total_len and BufMutSlice set_init distribution (every arity is a separate macro instantiation in traits.rs, so each one is decided)
 //@ bound: arity 8, capacities 0..=1 each
 //@ encodes: buf_slice_for_tuple!(8)
 //@ timeout: 1200
@@ -421,6 +421,52 @@ fn c14_tuple8() {
         _ => b.7.len(),
     });
 }
+
+macro_rules! tuple_harness {
+    ($name:ident, $n:expr, [$($i:tt),*]) => {
+        #[kani::proof]
+        #[kani::unwind(10)]
+        fn $name() {
+            let mut t = ( $( { let _ = $i; any_vec::<1>() }, )* );
+            let lens = [ $( t.$i.len(), )* ];
+            let caps = [ $( t.$i.capacity(), )* ];
+            let bases = [ $( t.$i.as_ptr(), )* ];
+            check_slice(&t, lens, bases);
+            check_mut_slice(&mut t, lens, caps, bases, |b, i| {
+                let l = [ $( b.$i.len(), )* ];
+                l[i]
+            });
+        }
+    };
+}
+
+//@ prop: C14
+//@ tier: quick
+//@ what: arity-4 tuple: BufSlice iovecs/total_len and BufMutSlice spare capacity / set_init distribution over the elements in order
+//@ bound: arity 4, capacities 0..=1 each, fill symbolic
+//@ encodes: buf_slice_for_tuple!(4)
+tuple_harness!(c14_tuple4, 4, [0, 1, 2, 3]);
+
+//@ prop: C14
+//@ tier: quick
+//@ what: arity-5 tuple: same laws
+//@ bound: arity 5, capacities 0..=1 each, fill symbolic
+//@ encodes: buf_slice_for_tuple!(5)
+tuple_harness!(c14_tuple5, 5, [0, 1, 2, 3, 4]);
+
+//@ prop: C14
+//@ tier: quick
+//@ what: arity-6 tuple: same laws
+//@ bound: arity 6, capacities 0..=1 each, fill symbolic
+//@ encodes: buf_slice_for_tuple!(6)
+tuple_harness!(c14_tuple6, 6, [0, 1, 2, 3, 4, 5]);
+
+//@ prop: C14
+//@ tier: quick
+//@ what: arity-7 tuple: same laws
+//@ bound: arity 7, capacities 0..=1 each, fill symbolic
+//@ encodes: buf_slice_for_tuple!(7)
+tuple_harness!(c14_tuple7, 7, [0, 1, 2, 3, 4, 5, 6]);
 
 // ---------------------------------------------------------------------------
 // LimitedBuf
